@@ -141,10 +141,20 @@ func c16e3Scenario(v c16e3Variant, suppress map[string]bool) func() *sched.Scena
 				}
 			},
 		)
+		// The endpoint advertises active_connection_id_limit = protocol.MaxActiveConnectionIDs (4): the
+		// handshake ID plus at most 3 more, none retired by the peer, stay within it ("accepts from
+		// the peer every connection ID within the limit it advertised itself").
+		var refused *explore.Fail
 		nextSeq := uint64(1)
-		for i := 0; i < v.IDs; i++ {
-			explore.Must(m.Add(c16e3NCID(nextSeq)) == nil, "initial NEW_CONNECTION_ID refused")
+		addID := func() {
+			explore.Must(nextSeq < protocol.MaxActiveConnectionIDs, "mix %s issues more IDs than the advertised limit", v.Name)
+			if err := m.Add(c16e3NCID(nextSeq)); err != nil && refused == nil {
+				refused = explore.Failf("e3:rejected-within-advertised-limit", "%s: NEW_CONNECTION_ID(%d) refused with %v although the peer has issued %d connection IDs and none was retired on its request (advertised limit %d)", v.Name, nextSeq, err, nextSeq+1, protocol.MaxActiveConnectionIDs)
+			}
 			nextSeq++
+		}
+		for i := 0; i < v.IDs; i++ {
+			addID()
 		}
 		var evs []string // what the application / the run loop / the connIDManager saw, in order
 		ev := func(f string, a ...any) { evs = append(evs, fmt.Sprintf(f, a...)) }
@@ -188,7 +198,7 @@ func c16e3Scenario(v c16e3Variant, suppress map[string]bool) func() *sched.Scena
 		nextInFlight := 0
 		var lastChallenge *[8]byte
 		lastChallengePath := 0
-		nextFail, respN, swOK, ncidErr := 0, 0, 0, 0
+		nextFail, respN, swOK := 0, 0, 0
 		for _, p := range v.Waiting {
 			ev("probe%d waiting", p)
 		}
@@ -304,10 +314,7 @@ func c16e3Scenario(v c16e3Variant, suppress map[string]bool) func() *sched.Scena
 			case name == "ncid":
 				return func() {
 					ev("ncid(%d)", nextSeq)
-					if m.Add(c16e3NCID(nextSeq)) != nil {
-						ncidErr++
-					}
-					nextSeq++
+					addID()
 				}
 			}
 			panic("unknown step " + name)
@@ -321,6 +328,9 @@ func c16e3Scenario(v c16e3Variant, suppress map[string]bool) func() *sched.Scena
 			threads = append(threads, sched.Thread{Name: fmt.Sprintf("T%d:%s", i, t[0]), Steps: steps})
 		}
 		judge := func() *explore.Fail {
+			if refused != nil && !suppress[refused.Key] {
+				return refused
+			}
 			var fails []*explore.Fail
 			bad := func(key, f string, a ...any) {
 				if !suppress[key] {
@@ -406,7 +416,7 @@ func c16e3Scenario(v c16e3Variant, suppress map[string]bool) func() *sched.Scena
 					}
 					fmt.Fprintf(&sb, "p%d[ids=%d retired=%d tokens=%d probes=%d enabled=%d abandoned=%v closeErr=%d valid=%v sw=%d/%d] ", p, len(st.handed), nret, ntok, st.nextOK, st.enabled, st.abandoned, st.closeErr, st.validated, st.switchOK, st.switchErr)
 				}
-				fmt.Fprintf(&sb, "noprobe=%d resp=%d swrun=%d ncidErr=%d queue=%d", nextFail, respN, swOK, ncidErr, len(m.queue))
+				fmt.Fprintf(&sb, "noprobe=%d resp=%d swrun=%d queue=%d", nextFail, respN, swOK, len(m.queue))
 				return sb.String()
 			},
 		}
